@@ -29,17 +29,18 @@ import (
 
 // Step is one action of the script.
 type Step struct {
-	Op   string `json:"op"`   // validate | load | reload (SIGUSR1) | restart (Instance.Restart) | occupy | release | sigterm | sigint | wait
-	Text string `json:"text"` // Casketfile text
+	Op   string `json:"op"`             // validate | load | reload (SIGUSR1) | restart (Instance.Restart) | occupy | release | sigterm | sigint | wait
+	Text string `json:"text"`           // Casketfile text
 	Port string `json:"port,omitempty"` // for occupy/release
 	N    int    `json:"n,omitempty"`    // repeat count for signals
 }
 
 // Script is what the parent hands to the child.
 type Script struct {
-	Dir    string   `json:"dir"`    // working directory (config file, logs, htpasswd ...)
-	Steps  []Step   `json:"steps"`
-	Probes []string `json:"probes"` // "port|host" pairs to GET / after every step
+	Dir        string   `json:"dir"` // working directory (config file, logs, htpasswd ...)
+	Steps      []Step   `json:"steps"`
+	Probes     []string `json:"probes"`                // "port|host" pairs to GET / after every step
+	ServerType string   `json:"server_type,omitempty"` // default "http"
 }
 
 // Obs is what the child observed after a step.
@@ -176,6 +177,10 @@ func run(scriptPath string) int {
 	if Hook != nil {
 		Hook()
 	}
+	stype := sc.ServerType
+	if stype == "" {
+		stype = "http"
+	}
 	conf := filepath.Join(sc.Dir, "Casketfile")
 	casket.RegisterCasketfileLoader("verif", fileLoader{conf})
 	casket.TrapSignals()
@@ -194,10 +199,10 @@ func run(scriptPath string) int {
 		go func(st Step) {
 			switch st.Op {
 			case "validate":
-				done <- casket.ValidateAndExecuteDirectives(casket.CasketfileInput{Contents: []byte(st.Text), Filepath: conf, ServerTypeName: "http"}, nil, true)
+				done <- casket.ValidateAndExecuteDirectives(casket.CasketfileInput{Contents: []byte(st.Text), Filepath: conf, ServerTypeName: stype}, nil, true)
 			case "load":
 				os.WriteFile(conf, []byte(st.Text), 0o644)
-				in, err := casket.LoadCasketfile("http")
+				in, err := casket.LoadCasketfile(stype)
 				if err != nil {
 					done <- err
 					return
@@ -212,7 +217,7 @@ func run(scriptPath string) int {
 					done <- fmt.Errorf("no instance")
 					return
 				}
-				ni, err := inst.Restart(casket.CasketfileInput{Contents: []byte(st.Text), Filepath: conf, ServerTypeName: "http"})
+				ni, err := inst.Restart(casket.CasketfileInput{Contents: []byte(st.Text), Filepath: conf, ServerTypeName: stype})
 				if err == nil {
 					inst = ni
 				}
